@@ -349,12 +349,9 @@ class DQN(RLAlgorithm):
 
     def soft_update(self) -> None:
         """Soft updates target network."""
-        for eval_param, target_param in zip(
-            self.actor.parameters(), self.actor_target.parameters()
-        ):
-            target_param.data.copy_(
-                self.tau * eval_param.data + (1.0 - self.tau) * target_param.data
-            )
+        # NOTE: The target parameters are held in `self.target_params` (see `init_hook()`)
+        # and don't appear in `self.actor_target.parameters()`
+        self.target_params.lerp_(self.param_vals.data, self.tau)
 
     def test(
         self,
